@@ -1083,6 +1083,69 @@ pub fn run(thorough: bool) -> i32 {
         rep.cov("part7_fdt_instance_id_sequences", g.histories - before);
     }
 
+    // (9) one TOI under two codepoints: the first packet announces the object under scheme A (in-band EXT_FTI, or an
+    // FDT before it), the second packet of the same TOI arrives with the codepoint of scheme B and 0..9 bytes
+    // after the LCT header (shorter than, equal to, longer than either scheme's FEC payload id)
+    {
+        let before = g.histories;
+        let cps = [rfc::FEC_NOCODE, rfc::FEC_RAPTOR, rfc::FEC_RS2M, rfc::FEC_RS28, rfc::FEC_RAPTORQ, rfc::FEC_SBS];
+        let fti_of = |cp: u8| -> Vec<u8> {
+            match cp {
+                rfc::FEC_NOCODE => rfc::fti_nocode(21, 8, 2),
+                rfc::FEC_RAPTOR => rfc::fti_raptor_flute(21, 8, 1, 1, 4),
+                rfc::FEC_RS2M => rfc::fti_rs2m(21, 8, 1, 8, 2, 4),
+                rfc::FEC_RS28 => rfc::fti_rs28(21, 8, 2, 4),
+                rfc::FEC_RAPTORQ => rfc::fti_raptorq(21, 8, 1, 1, 4),
+                _ => rfc::fti_sbs(21, 0, 8, 2, 4),
+            }
+        };
+        let exp_ok = unix_to_ntp_secs(EPOCH_2027 + 7200).to_string();
+        let mut hists: Vec<Vec<Vec<u8>>> = Vec::new();
+        for a in cps {
+            for b in cps {
+                for rest in 0..=9usize {
+                    for with_fdt in [false, true] {
+                        let mut h: Vec<Vec<u8>> = Vec::new();
+                        if with_fdt {
+                            let f = FileX::new("5", "file:///two-cp").attr("Content-Length", "21").attr("Transfer-Length", "21").attr("FEC-OTI-FEC-Encoding-ID", &a.to_string()).attr("FEC-OTI-Maximum-Source-Block-Length", "2").attr("FEC-OTI-Encoding-Symbol-Length", "8").attr("FEC-OTI-Max-Number-of-Encoding-Symbols", "4");
+                            h.extend(fdt_packets(TSI, 3, FdtX::new(&exp_ok).file(f).xml().as_bytes(), 8192, None, None));
+                        }
+                        let mut sp = rfc::Spec::minimal(a, TSI, 5);
+                        sp.exts.push(fti_of(a));
+                        sp.payload_id = rfc::pid(a, 0, 0, 2, 8);
+                        sp.payload = vec![0x41; 8];
+                        h.push(rfc::encode(&sp));
+                        let mut sp2 = rfc::Spec::minimal(b, TSI, 5);
+                        sp2.payload_id = Vec::new();
+                        sp2.payload = vec![0x42; rest];
+                        h.push(rfc::encode(&sp2));
+                        hists.push(h);
+                    }
+                }
+            }
+        }
+        let fu4 = fu.clone();
+        let res = par_map(&hists, move |_, h| {
+            let mut gg = G::default();
+            let mut ff: Found = Default::default();
+            let refs: Vec<&[u8]> = h.iter().map(|p| &p[..]).collect();
+            for v in [0u8, 1] {
+                set_rxv(v);
+                let r = run_history(&refs, Some(&fu4), &mut gg);
+                note(&mut ff, r, &refs);
+            }
+            set_rxv(0);
+            (gg, ff)
+        });
+        for (gg, ff) in res {
+            g.merge(&gg);
+            for (k, v) in ff {
+                found.entry(k).and_modify(|e| e.2 += v.2).or_insert(v);
+            }
+        }
+        rep.cov("part9_two_codepoints_histories", g.histories - before);
+    }
+
     for (key, (what, case, n)) in found {
         let v = Violation { key, what: format!("{} [{} case(s)]", what, n), case };
         rep.add(v);
